@@ -484,7 +484,8 @@ def match_f3(f: dict) -> bool:
     return not strict_eq(got, want) and strict_eq(f3_norm(got), f3_norm(want)) and 'a' in c and 'b' in c
 
 
-def _kopf_unmarkable(prefix: str) -> bool:
+def _kopf_dot(prefix: str) -> bool:
+    """Prefixes which were never marked before kopf commit e6fe434 (F5, fixed): 'kopf.*' other than kopf.zalando.org."""
     return prefix.startswith('kopf.') and prefix != 'kopf.zalando.org' and not prefix.endswith('.kopf.zalando.org')
 
 
@@ -507,18 +508,6 @@ def _without_ann(e: Any, pred: Any) -> Any:
     return e
 
 
-def match_f5(f: dict) -> bool:
-    """F5: another Kopf operator whose prefix starts with 'kopf.' (not kopf.zalando.org) is never marked: exactly its
-    annotations make the difference."""
-    if f['sig'] != 'other-operator-visible':
-        return False
-    qs = [q for q in f['case'].get('other_prefixes', []) if _kopf_unmarkable(q)]
-    if not qs:
-        return False
-    under = lambda k: any(k.startswith(q + '/') for q in qs)
-    return strict_eq(_without_ann(f['observed'], under), _without_ann(f['expected'], under))
-
-
 def match_f41(f: dict) -> bool:
     """F41: the write adds the FIRST `<q>/kopf-managed` marker while the object carries annotations under `<q>/` that no
     Kopf storage wrote and that were visible before: they vanish from the essence (and only they)."""
@@ -531,34 +520,7 @@ def match_f41(f: dict) -> bool:
     before, after = f['expected'], f['observed']
     under = lambda k: any(k.startswith(q + '/') for q in added)
     hidden = [k for k in _ann(before) if under(k)]
-    # a write of ANOTHER operator may at the same time show F5 (its unmarkable 'kopf.*' prefix): set those keys aside
-    f5 = [q for q in f['case'].get('other_prefixes', []) if _kopf_unmarkable(q)] if f['sig'] == 'other-operator-visible' else []
-    aside = lambda k: any(k.startswith(q + '/') for q in f5)
-    before, after = _without_ann(before, aside), _without_ann(after, aside)
     return bool(hidden) and not any(under(k) for k in _ann(after)) and strict_eq(_without_ann(before, under), after)
-
-
-def match_f42(f: dict) -> bool:
-    """F42: MultiDiffBaseStorage hands the ESSENCE (no `kind`) to its sub-storages, so for a ReplicaSet owned by a
-    Deployment an annotations sub-storage looks for `<key>` instead of `<key>-ofDRS` and leaves its own last-handled
-    annotation in the essence (unless the prefix is marked): exactly that annotation makes the difference."""
-    if f['sig'] not in ('own-write-visible', 'self-trigger-after-store'):
-        return False
-    c = f['case']
-    dcfg = c['operator']['diffbase']
-    if dcfg['kind'] != 'multi' or not is_drs(c['body']):
-        return False
-    from kopf._cogs.structs import bodies
-    own: set[str] = set()
-    for sub in flat_cfgs(dcfg):
-        if sub['kind'] == 'ann' and _kopf_unmarkable(sub['prefix']):
-            own |= set(st.build_diffbase(sub).make_keys(sub['key'], body=bodies.Body(c['body'])))
-    if not own:
-        return False
-    mine = lambda k: k in own
-    before, after = f['expected'], f['observed']
-    return (any(mine(k) for k in list(_ann(before)) + list(_ann(after)))
-            and strict_eq(_without_ann(before, mine), _without_ann(after, mine)))
 
 
 # ------------------------------------------------------------------------------------------
@@ -732,7 +694,7 @@ def check_other_operator(ctx: fw.Ctx, op: Operator, other: Operator, raw: dict, 
         return
     # "invisible iff detectable": annotations which the GENERATOR left without a marker (a Kopf older than the marker)
     # and which get no marker with this write either (e.g. such a record is purged) are outside the statement.
-    # Everything a current Kopf writes is in: markable prefixes get their marker, unmarkable 'kopf.*' ones are F5.
+    # Everything a current Kopf writes is in: every prefix gets its marker or is known without one (F5 is fixed).
     for q in sorted({k.split('/', 1)[0] for k in _ann(patch) if '/' in k}):
         if q in unmarked_legacy and f'{q}/kopf-managed' not in _ann(raw) and _ann(patch).get(f'{q}/kopf-managed') is None:
             ctx.count('other_operator', 'skipped:legacy-unmarked')
@@ -741,7 +703,7 @@ def check_other_operator(ctx: fw.Ctx, op: Operator, other: Operator, raw: dict, 
     k1, e1 = op.essence(after)
     case = {'operator': op.describe(), 'other': other.describe(), 'other_prefixes': theirs, 'body': raw,
             'ops': [list(o) for o in ops], 'patch': patch, 'src': tag}
-    ctx.count('other_operator', 'kopf.*-unmarkable' if any(_kopf_unmarkable(q) for q in theirs) else 'markable')
+    ctx.count('other_operator', 'kopf.*-prefix' if any(_kopf_dot(q) for q in theirs) else 'other-prefix')
     if k1 != 'ok' or not strict_eq(e0, e1):
         ctx.fail("another Kopf operator's write counts as an essential change", case, observed=e1 if k1 == 'ok' else f'error:{k1}',
                  expected=e0, sig='other-operator-visible')
@@ -823,7 +785,7 @@ def load_corpus() -> list[dict]:
 
 def run(ctx: fw.Ctx) -> int:
     from kopf._cogs.structs import bodies, diffs, finalizers
-    ctx.matchers = {'F3': match_f3, 'F5': match_f5, 'F41': match_f41, 'F42': match_f42}
+    ctx.matchers = {'F3': match_f3, 'F41': match_f41}
 
     ctx.proofs()
     ok, logtxt = fw.build_models(['Model/Diff.v', 'Model/Essence.v', 'Model/OwnWrites.v'])
